@@ -199,17 +199,22 @@ def run_type(item):
             sc = ThermocoupleScaling(CODES[letter], direction, 0xFFFFFFFF)
             if direction == 1:
                 x = sub.astype(dt)
-                r = H.guarded(lambda: sc.scale(x))
                 exp = 1000.0 * np.asarray(tc.celsius_to_mv(x), dtype=np.float64)
                 ref = 1000.0 * ref_forward(tab, x.astype(np.float64))
                 tol = 1e-5 if dt is np.float64 else 5e-3 * np.maximum(1.0, np.abs(ref)) * 1e-3 + 0.05
             else:
                 uv = (1000.0 * ref_forward(tab, sub)).astype(dt)
                 x = uv
-                r = H.guarded(lambda: sc.scale(x))
                 ref = sub
                 tol = INV_BOUND[letter] + INV_SLACK + (0.0 if dt is np.float64 else 0.05)
             res['counters']['scaling_points'] += len(sub)
+            # the input array belongs to the caller (inside a file it is the channel's raw data): it must not be written to
+            x_before = x.copy()
+            r = H.guarded(lambda: sc.scale(x))
+            if not np.array_equal(x, x_before, equal_nan=True):
+                bad('scaling-modifies-input', 'input unchanged', 'ThermocoupleScaling.scale wrote into its input (direction %d, %s)' % (direction, dt.__name__),
+                    'dir%d %s' % (direction, dt.__name__))
+                x = x_before
             if r[0] != 'ok':
                 bad('scaling-raised', 'values', repr(r), 'dir%d %s' % (direction, dt.__name__))
                 continue
@@ -271,7 +276,23 @@ def through_file(item):
             finally:
                 G.POOLS['DoubleFloat'] = saved
             for lazy in (False, True):
-                r = H.guarded(lambda: (H.TdmsFile.open if lazy else H.TdmsFile.read)(io.BytesIO(data))['g']['a'][:])
+                def read_twice():
+                    tf = (H.TdmsFile.open if lazy else H.TdmsFile.read)(io.BytesIO(data))
+                    try:
+                        ch = tf['g']['a']
+                        raw0 = np.array(ch.read_data(scaled=False), copy=True)
+                        first = ch[:]
+                        second = ch.read_data()
+                        third = ch.read_data(0, len(ch))
+                        if not (np.array_equal(first, second, equal_nan=True) and np.array_equal(first, third, equal_nan=True)):
+                            raise AssertionError('repeated scaled reads of the same stored values differ')
+                        if not np.array_equal(raw0, ch.read_data(scaled=False)):
+                            raise AssertionError('stored raw values changed after scaling')
+                        return third
+                    finally:
+                        if lazy:
+                            tf.close()
+                r = H.guarded(read_twice)
                 res['counters']['file_points'] += n
                 what = 'dir%d %s %s' % (direction, src_spelling, 'lazy' if lazy else 'eager')
                 if r[0] != 'ok':
